@@ -19,6 +19,15 @@ type verifC17Log struct{}
 
 func (verifC17Log) Log(logger.Level, string, ...any) {}
 
+// verifC17Pause lets the readers empty their queues: one tick of the virtual clock, or real time natively
+func verifC17Pause() {
+	if vnd.Symbolic() {
+		time.Sleep(time.Millisecond)
+	} else {
+		time.Sleep(60 * time.Millisecond)
+	}
+}
+
 type verifC17Got struct {
 	format int
 	pts    int64
@@ -77,6 +86,9 @@ func VerifFanOut() {
 			if vr.subs[f] {
 				f := f
 				vr.r.OnData(media, formats[f], func(u *unit.Unit) error {
+					if !vnd.Symbolic() {
+						time.Sleep(3 * time.Millisecond) // a real reader's callback takes time (it writes to a socket)
+					}
 					vr.mu.Lock()
 					vr.got = append(vr.got, verifC17Got{f, u.PTS})
 					vr.mu.Unlock()
@@ -102,6 +114,9 @@ func VerifFanOut() {
 			vnd.Assume(d > 0 && d < 1<<40 && pts > -(1<<62) && pts < 1<<62)
 			pts += d
 			ssfs[f].writeUnit(&unit.Unit{PTS: pts})
+			if !vnd.Symbolic() {
+				time.Sleep(500 * time.Microsecond) // publishers write at media pace: a waiting reader gets to take the unit
+			}
 			for _, vr := range rs {
 				if !vr.attached || !vr.subs[f] {
 					continue
@@ -115,7 +130,7 @@ func VerifFanOut() {
 				}
 			}
 		case 2: // the readers' goroutines run until their queues are empty
-			time.Sleep(time.Millisecond)
+			verifC17Pause()
 			for _, vr := range rs {
 				vr.occ = 0
 			}
@@ -131,7 +146,7 @@ func VerifFanOut() {
 			rs[0].mu.Unlock()
 		}
 	}
-	time.Sleep(time.Millisecond)
+	verifC17Pause()
 
 	for i, vr := range rs {
 		vr.mu.Lock()
